@@ -27,7 +27,7 @@ ASSUMPTIONS = [
     "where the statement is silent (POST on 301/302/307/308 with the strict agent, which documents 'no automatic "
     "redirect') both refusing and following with the unchanged method are accepted",
 ]
-MIN = {"quick": {"evaluations": 600000, "nontrivial": 250000, "outcomes": 6},
+MIN = {"quick": {"evaluations": 640000, "nontrivial": 335000, "outcomes": 6},
        "thorough": {"evaluations": 1500000, "nontrivial": 600000, "outcomes": 6}}
 
 CODES = [301, 302, 303, 307, 308]
